@@ -49,6 +49,7 @@ def gen_block(rng, sup, depth=0, is_res=False):
     blk = dict(claim=rng.random() < 0.25, amt=amt, hold=rng.choice([0, 0, 1, 1, 2, 3]), nested=None)
     if depth < 2 and rng.random() < (0.35 if depth == 0 else 0.2):
         blk['nested'] = gen_block(rng, amt, depth + 1)
+        blk['nested']['guard'] = rng.random() < 0.3
         if rng.random() < 0.12:      # ask for more than the share: "cannot borrow beyond capacity"
             blk['nested']['amt'] = [a + 1 for a in amt]
     return blk
@@ -88,6 +89,12 @@ def gen_base(rng, corner=None):
     return dict(kind=kind, nk=nk, supply=sup, acts=acts, adj=adj, faults=[])
 
 
+def has_guard(act):
+    def g(b):
+        return b is not None and (bool(b.get('guard')) or g(b.get('nested')))
+    return any(g(b.get('nested')) for b in act['blocks'])
+
+
 def victims(sc):
     return ['t%d' % i for i in range(len(sc['acts']))] + (['adj'] if sc['adj'] else [])
 
@@ -98,6 +105,7 @@ def execute(sc):
     import usim
     from usim import time, until, Capacities, Resources, ResourcesUnavailable
     from usim._primitives.notification import Notification
+    from usim._core.loop import Interrupt
 
     nk = sc['nk']
     keys = KEYS[:nk]
@@ -151,11 +159,11 @@ def execute(sc):
                 sl = vec(b['share'].levels)
                 if any(x < 0 for x in sl):
                     # known finding D18: only with its exact signature, anything else is a violation
-                    hits = len([f for f in inj.fired if f['victim'] == b['owner']])
+                    hits = len([f for f in inj.fired if f['victim'] in (b['owner'], b['owner'] + 'g')])
                     cut = [c for c in mon['blocks'] if c['parent'] is b and c['interrupted']]
                     if hits >= 1 and cut and all(x >= 0 for x in lv):
                         d18.append('%s: borrowed share of %r at %r: nested block of %r was interrupted '
-                                   'inside its %s (%d signal(s) on %s) and the owner then emptied the '
+                                   'in its %s (%d signal(s) on %s) and the owner then emptied the '
                                    'share; supply %r' % (when, b['amt'], sl, cut[0]['amt'],
                                                          cut[0]['interrupted'], hits, b['owner'], lv))
                     else:
@@ -246,8 +254,9 @@ def execute(sc):
         def _exit_section(self, how, end, val):
             st['sections'] += 1
             i = self.idx
-            if how == 'start' and self.gen_exit:
-                log(('Close', i), 'OOk')
+            if how == 'start' and self.nowait:
+                # fix D20: left by GeneratorExit or by an Interrupt: no suspension, two give-backs scheduled
+                log((self.nowait, i), 'OOk')
                 st['fault_hold'] += 1
                 return
             if end == 'raise':
@@ -275,7 +284,10 @@ def execute(sc):
         async def __aexit__(self, et, ev_, tb):
             mb = self.mb
             mb['state'] = 'leaving'
-            self.gen_exit = et is GeneratorExit
+            self.nowait = ('Close' if et is GeneratorExit else
+                           'Signal' if et is not None and issubclass(et, Interrupt) else None)
+            if self.nowait:
+                mb['interrupted'] = 'body (left by an interrupt: give-backs only scheduled)'
             self.exiting = True
             try:
                 return await F.drive(self.cm.__aexit__(et, ev_, tb), self._exit_section, self._begin)
@@ -305,7 +317,12 @@ def execute(sc):
         try:
             async with Block(cm, idx, parent_obj, mb, owner) as share:
                 if blk['nested'] is not None:
-                    await do_block(share, idx + 1, mb, blk['nested'], owner)
+                    if blk['nested'].get('guard'):
+                        # an `until` between the two blocks absorbs the interrupt (victim '<task>g')
+                        async with until(notes.setdefault(owner + 'g', Notification())):
+                            await do_block(share, idx + 1, mb, blk['nested'], owner)
+                    else:
+                        await do_block(share, idx + 1, mb, blk['nested'], owner)
                 if blk['hold']:
                     await (time + blk['hold'])
         except ResourcesUnavailable:
@@ -360,6 +377,7 @@ def execute(sc):
             for i, a in enumerate(sc['acts']):
                 name = 't%d' % i
                 tasks[name] = scope.do(wrapped(name, lambda a=a, name=name: activity(a, name), a['until']))
+                tasks[name + 'g'] = tasks[name]
             if sc['adj']:
                 tasks['adj'] = scope.do(adjuster())
             await usim.eternity
@@ -384,6 +402,7 @@ def execute(sc):
         for blk in live:
             if blk.exiting or blk.phase in ('wait', 'taking', 'filling'):
                 hot.setdefault(blk.owner, []).append(k)
+                hot.setdefault(blk.owner + 'g', []).append(k)
             if blk.mb['state'] == 'body' and blk.mb['parent'] is not None:
                 body_ks.setdefault(blk.owner, []).append(k)
 
@@ -512,6 +531,8 @@ def scenarios(ctx):
         if kind == 'until':
             if vic == 'adj':
                 kind = 'cancel'
+            elif has_guard(base['acts'][int(vic[1:])]) and rng.random() < 0.6:
+                vic = vic + 'g'             # trip the `until` between a block and its nested block
             else:
                 base['acts'][int(vic[1:])]['until'] = True
         r0 = execute(base)
@@ -574,19 +595,20 @@ def run(ctx):
 
 
 def directed_d18(ctx):
-    """known finding D18: a signal landing inside the acquire/release postponements of a block nested
-    in a borrowed share (here: two cancels in a row, the second lands in the inner release) drives the
-    level of the borrowed SHARE transiently below zero (the supply stays >= 0 and is conserved)"""
+    """known finding D18: a block nested in a borrowed share is left by a foreign signal so that its
+    give-back is only scheduled (here: an until-interrupt absorbed between the two blocks), the owner
+    then leaves on the awaited path: the level of the borrowed SHARE is transiently below zero (the
+    supply stays >= 0 and is conserved)"""
     base = dict(kind='cap', nk=1, supply=[4], adj=[], faults=[],
                 acts=[dict(start=1, until=False,
-                           blocks=[dict(claim=False, amt=[3], hold=2,
-                                        nested=dict(claim=False, amt=[1], hold=5, nested=None))])])
+                           blocks=[dict(claim=False, amt=[3], hold=0,
+                                        nested=dict(claim=False, amt=[1], hold=5, nested=None, guard=True))])])
     r0 = execute(base)
     out = [(base, r0['events'], r0['final'])]
     ctx.count(base)
     for k in r0['body_ks'].get('t0', [])[:8]:
         sc = json.loads(json.dumps(base))
-        sc['faults'] = [dict(kind='cancel', k=k, victim='t0'), dict(kind='cancel', k=k, victim='t0')]
+        sc['faults'] = [dict(kind='until', k=k, victim='t0g')]
         r = execute(sc)
         ctx.count(sc)
         out.append((sc, r['events'], r['final']))
